@@ -19,7 +19,7 @@ RULE = (
     "(half of them <= 8), log mode with x_min 10^-9..10^-0.5 (boosted below 1e-7) and last point 1, linear mode on "
     "[x_min,1]; degree 1-6 <= points-1; mode_N on/off. Per grid: all nodes (Kronecker), 4-8 evaluation points (area "
     "interior, area boundaries, nodes +-1 ulp), one polynomial of degree <= deg in ln x (log) / x (linear) with "
-    "coefficients in [-1,1] on the grid's normalised variable, one target grid for get_interpolation: random points "
+    "coefficients +-[0.1,1] on the grid's normalised variable, one target grid for get_interpolation: random points "
     "(same or different length), the nodes themselves, the nodes with every point below 1e-7 (at least the lowest) "
     "moved up by a factor 1.5-3, or the nodes jittered by a relative 1e-7..8e-6. Separate 'reject' cases: repeated "
     "point, fewer than degree+1 points, fewer than 2 points, degree < 1, passed as list or as XGrid, must raise "
@@ -132,7 +132,10 @@ def strategy(tier):
             evals.append(min(max(x, grid[0]), grid[-1]))
         # polynomial
         pdeg = draw(st.integers(0, deg))
-        poly = draw(st.lists(fl(-1.0, 1.0), min_size=pdeg + 1, max_size=pdeg + 1))
+        poly = [
+            (a if sgn else -a)
+            for sgn, a in draw(st.lists(st.tuples(st.booleans(), fl(0.1, 1.0)), min_size=pdeg + 1, max_size=pdeg + 1))
+        ]  # coefficients of size 0.1..1: P = O(1), so that deviations read as what they are
         # target grid
         tk = pick(draw, ["random", "random-same-length", "nodes", "lowshift", "lowshift", "jitter"])
         if tk in ("random", "random-same-length"):
@@ -245,7 +248,8 @@ def check_case(case):
     where = f"log={log}"  # buckets: sub-check x interpolation mode (degree, point kind, target kind go to the message)
 
     try:
-        xg = ip.XGrid(grid, log=log)
+        via_list = bool(log and n % 2 == 0)  # a plain sequence means a logarithmic grid (XGrid default)
+        xg = list(grid) if via_list else ip.XGrid(grid, log=log)
         disp = ip.InterpolatorDispatcher(xg, deg, mode_N=case["mode_N"])
     except Exception as e:  # noqa: BLE001 - a valid grid must be accepted
         res.fail(exc_bucket(f"{ID}/construct/{where}", e), f"valid grid rejected: {e!r}")
